@@ -1,8 +1,9 @@
 import Asn1Proofs.Lemmas.CostPerTypes
 /-
-  C08 for the ALIGNED PER model: the allocation bound for SEQUENCE and CHOICE (with the rewinding
-  branch of `Choice.decode_additions`), the induction over all types and the statements about
-  `Per.decode`.
+  C08 for the ALIGNED PER model: the allocation bound for SEQUENCE and CHOICE, the induction over all
+  types and the statements about `Per.decode`.  Linear in the bits consumed for EVERY type: the branch of
+  `Choice.decode_additions` that used to move the read position backwards raises `DecodeError` since
+  repair ace6523 of /repo.
 -/
 set_option linter.unusedSimpArgs false
 set_option linter.unusedVariables false
@@ -11,76 +12,44 @@ open Asn1.Per
 open Asn1.Uper (DecM Err bind_ok sizeBits utf8Dec charDecode sortByVal)
 open Asn1.Cost (sumSize presenceNodes nodesFields_append sumSize_nodes)
 
-theorem absorb2 {Q K1 K2 P : Nat} (hP : 1 ≤ P) :
-    1 + Q + K1 * P + K2 * P ≤ (1 + Q + K1 + K2) * P := by
-  have e : 1 + Q + K1 + K2 = (1 + Q) + (K1 + K2) := by omega
-  have := absorb (k := 1 + Q) (A := K1 + K2) hP
-  rw [Nat.add_mul K1 K2 P] at this
-  rw [e]
-  omega
-
-theorem mem_arithP {a K1 P1 c1 b K2 P2 c2 Q P c : Nat} (h1 : a ≤ K1 * P1 * (c1 + 1))
-    (h2 : b ≤ K2 * P2 * (c2 + 1)) (hP1 : P1 ≤ P) (hP2 : P2 ≤ P) (hP : 1 ≤ P)
-    (hc1 : c1 ≤ c) (hc2 : c2 ≤ c) : 1 + a + b ≤ (1 + Q + K1 + K2) * P * (c + 1) := by
-  have h1' : a ≤ K1 * P * (c1 + 1) :=
-    Nat.le_trans h1 (Nat.mul_le_mul_right _ (Nat.mul_le_mul_left _ hP1))
-  have h2' : b ≤ K2 * P * (c2 + 1) :=
-    Nat.le_trans h2 (Nat.mul_le_mul_right _ (Nat.mul_le_mul_left _ hP2))
-  have a := Cost.mem_arith (P := Q) h1' h2' hc1 hc2
-  refine Nat.le_trans a (Nat.mul_le_mul_right _ ?_)
-  exact absorb2 hP
-
-theorem mem_arith_defaultP {b K1 K2 P2 c2 Q P c : Nat} (h2 : b ≤ K2 * P2 * (c2 + 1))
-    (hP2 : P2 ≤ P) (hP : 1 ≤ P) (hc2 : c2 ≤ c) : 1 + Q + b ≤ (1 + Q + K1 + K2) * P * (c + 1) := by
-  have h2' : b ≤ K2 * P * (c2 + 1) :=
-    Nat.le_trans h2 (Nat.mul_le_mul_right _ (Nat.mul_le_mul_left _ hP2))
-  have a := Cost.mem_arith_default (K1 := K1 * P) (P := Q) h2' hc2
-  refine Nat.le_trans a (Nat.mul_le_mul_right _ ?_)
-  exact absorb2 hP
-
-theorem szp_decMembers (ms : Members) : ms.All SzP → ∀ (f N : Nat) (flags : Bits) (s : St)
-    (fs : List (String × Val)) (r : St), decMembers ms f flags s = .ok (fs, r) → s.bs.length ≤ N →
+theorem szp_decMembers (ms : Members) : ms.All SzP → ∀ (f : Nat) (flags : Bits) (s : St)
+    (fs : List (String × Val)) (r : St), decMembers ms f flags s = .ok (fs, r) →
     r.bs.length ≤ s.bs.length ∧
-      Val.nodesFields fs ≤ KPm ms * (N + 1) ^ rewindsM ms * (s.bs.length - r.bs.length + 1) := by
+      Val.nodesFields fs ≤ KPm ms * (s.bs.length - r.bs.length + 1) := by
   induction ms using Members.ind with
   | nil =>
-    intro _ f N flags s fs r h _
+    intro _ f flags s fs r h
     rw [decMembers] at h
     cases h
     simp [Val.nodesFields]
   | cons name p t rest ih =>
-    intro hall f N flags s fs r h hN
+    intro hall f flags s fs r h
     obtain ⟨ht, hrest⟩ := hall
-    have hPl := pw_mono N (Nat.le_max_left (rewinds t) (rewindsM rest))
-    have hPr := pw_mono N (Nat.le_max_right (rewinds t) (rewindsM rest))
-    have hP := pw_pos N (max (rewinds t) (rewindsM rest))
     have hpresent : ∀ fl, (do
           let (v, r) ← dec t f s
           let (fs, r') ← decMembers rest f fl r
           .ok ((name, v) :: fs, r') : DecM (List (String × Val) × St)) = .ok (fs, r) →
         r.bs.length ≤ s.bs.length ∧ Val.nodesFields fs ≤
-          KPm (.cons name p t rest) * (N + 1) ^ rewindsM (.cons name p t rest)
-            * (s.bs.length - r.bs.length + 1) := by
+          KPm (.cons name p t rest) * (s.bs.length - r.bs.length + 1) := by
       intro fl h
       obtain ⟨⟨v, r1⟩, h1, h⟩ := bind_ok h
       try dsimp only at h
-      obtain ⟨hl1, hs1⟩ := ht f N _ _ _ h1 hN
+      obtain ⟨hl1, hs1⟩ := ht f _ _ _ h1
       obtain ⟨⟨fs', r2⟩, h2, h⟩ := bind_ok h
       try dsimp only at h
-      obtain ⟨hl2, hs2⟩ := ih hrest f N fl _ _ _ h2 (by omega)
+      obtain ⟨hl2, hs2⟩ := ih hrest f fl _ _ _ h2
       cases h
       refine ⟨by omega, ?_⟩
-      simp only [Val.nodesFields, KPm, rewindsM]
-      exact mem_arithP hs1 hs2 hPl hPr hP (by omega) (by omega)
+      simp only [Val.nodesFields, KPm]
+      exact Cost.mem_arith hs1 hs2 (by omega) (by omega)
     have hskip : ∀ fl, decMembers rest f fl s = .ok (fs, r) →
         r.bs.length ≤ s.bs.length ∧ Val.nodesFields fs ≤
-          KPm (.cons name p t rest) * (N + 1) ^ rewindsM (.cons name p t rest)
-            * (s.bs.length - r.bs.length + 1) := by
+          KPm (.cons name p t rest) * (s.bs.length - r.bs.length + 1) := by
       intro fl h
-      obtain ⟨hl, hs⟩ := ih hrest f N fl _ _ _ h hN
+      obtain ⟨hl, hs⟩ := ih hrest f fl _ _ _ h
       refine ⟨hl, ?_⟩
-      simp only [KPm, rewindsM]
-      exact bdP_mono hs (by omega) (Nat.le_max_right _ _) (Nat.le_refl _)
+      simp only [KPm]
+      exact Cost.bd_mono hs (by omega) (Nat.le_refl _)
     cases p with
     | mandatory =>
       rw [decMembers] at h
@@ -102,20 +71,20 @@ theorem szp_decMembers (ms : Members) : ms.All SzP → ∀ (f N : Nat) (flags : 
       · intro h
         obtain ⟨⟨fs', r1⟩, h1, h⟩ := bind_ok h
         try dsimp only at h
-        obtain ⟨hl, hs⟩ := ih hrest f N _ _ _ _ h1 hN
+        obtain ⟨hl, hs⟩ := ih hrest f _ _ _ _ h1
         cases h
         refine ⟨hl, ?_⟩
-        simp only [Val.nodesFields, KPm, rewindsM, presenceNodes]
-        exact mem_arith_defaultP hs hPr hP (Nat.le_refl _)
+        simp only [Val.nodesFields, KPm, presenceNodes]
+        exact Cost.mem_arith_default hs (Nat.le_refl _)
       · intro h; cases h
 
-theorem szp_decAdditions (ms : Members) : ms.All SzP → ∀ (f N : Nat) (bitmap : Bits) (s : St)
-    (fs : List (String × Val)) (r : St), decAdditions ms f bitmap s = .ok (fs, r) → s.bs.length ≤ N →
+theorem szp_decAdditions (ms : Members) : ms.All SzP → ∀ (f : Nat) (bitmap : Bits) (s : St)
+    (fs : List (String × Val)) (r : St), decAdditions ms f bitmap s = .ok (fs, r) →
     r.bs.length ≤ s.bs.length ∧
-      Val.nodesFields fs ≤ KPm ms * (N + 1) ^ rewindsM ms * (s.bs.length - r.bs.length + 1) := by
+      Val.nodesFields fs ≤ KPm ms * (s.bs.length - r.bs.length + 1) := by
   induction ms using Members.ind with
   | nil =>
-    intro _ f N bitmap s fs r h _
+    intro _ f bitmap s fs r h
     rw [decAdditions] at h
     obtain ⟨r1, h1, h⟩ := bind_ok h
     try dsimp only at h
@@ -123,11 +92,8 @@ theorem szp_decAdditions (ms : Members) : ms.All SzP → ∀ (f N : Nat) (bitmap
     cases h
     simp [Val.nodesFields, this]
   | cons name p t rest ih =>
-    intro hall f N bitmap s fs r h hN
+    intro hall f bitmap s fs r h
     obtain ⟨ht, hrest⟩ := hall
-    have hPl := pw_mono N (Nat.le_max_left (rewinds t) (rewindsM rest))
-    have hPr := pw_mono N (Nat.le_max_right (rewinds t) (rewindsM rest))
-    have hP := pw_pos N (max (rewinds t) (rewindsM rest))
     cases bitmap with
     | nil => rw [decAdditions] at h; cases h; simp [Val.nodesFields]
     | cons present bitmap =>
@@ -141,22 +107,22 @@ theorem szp_decAdditions (ms : Members) : ms.All SzP → ∀ (f N : Nat) (bitmap
         have hl1 := (readLenDet_ok h1).1
         obtain ⟨⟨v, r2⟩, h2, h⟩ := bind_ok h
         try dsimp only at h
-        obtain ⟨hl2, hs2⟩ := ht f N _ _ _ h2 (by omega)
+        obtain ⟨hl2, hs2⟩ := ht f _ _ _ h2
         obtain ⟨⟨pad, r3⟩, h3, h⟩ := bind_ok h
         try dsimp only at h
         have hl3 := (readBits_ok h3).1
         obtain ⟨⟨fs', r4⟩, h4, h⟩ := bind_ok h
         try dsimp only at h
-        obtain ⟨hl4, hs4⟩ := ih hrest f N _ _ _ _ h4 (by omega)
+        obtain ⟨hl4, hs4⟩ := ih hrest f _ _ _ _ h4
         cases h
         refine ⟨by omega, ?_⟩
-        simp only [Val.nodesFields, KPm, rewindsM]
-        exact mem_arithP hs2 hs4 hPl hPr hP (by omega) (by omega)
+        simp only [Val.nodesFields, KPm]
+        exact Cost.mem_arith hs2 hs4 (by omega) (by omega)
       · intro h
-        obtain ⟨hl, hs⟩ := ih hrest f N _ _ _ _ h hN
+        obtain ⟨hl, hs⟩ := ih hrest f _ _ _ _ h
         refine ⟨hl, ?_⟩
-        simp only [KPm, rewindsM]
-        exact bdP_mono hs (by omega) (Nat.le_max_right _ _) (Nat.le_refl _)
+        simp only [KPm]
+        exact Cost.bd_mono hs (by omega) (Nat.le_refl _)
 
 /-- the extension bit of a type that is not extensible is never read -/
 theorem optBit_true {c : Bool} {s r : St}
@@ -167,7 +133,7 @@ theorem optBit_true {c : Bool} {s r : St}
 
 theorem szp_sequence (root : Members) (ext : Bool) (adds : Members)
     (ihr : root.All SzP) (iha : adds.All SzP) : SzP (.sequence root ext adds) := by
-  intro f N s v r h hN
+  intro f s v r h
   rw [dec] at h
   obtain ⟨⟨e, r0⟩, h0, h⟩ := bind_ok h
   try dsimp only at h
@@ -177,7 +143,7 @@ theorem szp_sequence (root : Members) (ext : Bool) (adds : Members)
   have hl1 := (readBits_ok h1).1
   obtain ⟨⟨fields, r2⟩, h2, h⟩ := bind_ok h
   try dsimp only at h
-  obtain ⟨hl2, hs2⟩ := szp_decMembers root ihr f N _ _ _ _ h2 (by omega)
+  obtain ⟨hl2, hs2⟩ := szp_decMembers root ihr f _ _ _ _ h2
   revert h
   split
   · rename_i he
@@ -194,80 +160,59 @@ theorem szp_sequence (root : Members) (ext : Bool) (adds : Members)
     have ha := align_le r4
     obtain ⟨⟨more, r5⟩, h5, h⟩ := bind_ok h
     try dsimp only at h
-    obtain ⟨hl5, hs5⟩ := szp_decAdditions adds iha f N _ _ _ _ h5 (by omega)
+    obtain ⟨hl5, hs5⟩ := szp_decAdditions adds iha f _ _ _ _ h5
     cases h
     refine ⟨by omega, ?_⟩
-    simp only [Val.nodes, KP, rewinds, nodesFields_append, if_true]
-    have := mem_arithP (Q := 0) (P := (N + 1) ^ max (rewindsM root) (rewindsM adds)) hs2 hs5
-      (pw_mono N (Nat.le_max_left _ _)) (pw_mono N (Nat.le_max_right _ _)) (pw_pos N _)
-      (c := s.bs.length - r.bs.length) (by omega) (by omega)
+    simp only [Val.nodes, KP, nodesFields_append]
+    have := Cost.mem_arith (P := 0) hs2 hs5 (c := s.bs.length - r.bs.length) (by omega) (by omega)
     simp only [Nat.add_zero] at this
     omega
   · intro h
     cases h
     refine ⟨by omega, ?_⟩
-    simp only [Val.nodes, KP, rewinds]
-    have := mem_arithP (Q := 0) (b := 0) (K2 := KPm adds) (P2 := 1) (c2 := 0)
-      (P := (N + 1) ^ max (rewindsM root) (if ext = true then rewindsM adds else 0)) hs2 (by omega)
-      (pw_mono N (Nat.le_max_left _ _)) (pw_pos N _) (pw_pos N _)
+    simp only [Val.nodes, KP]
+    have := Cost.mem_arith (P := 0) (b := 0) (K2 := KPm adds) (c2 := 0) hs2 (by omega)
       (c := s.bs.length - r.bs.length) (by omega) (by omega)
     simp only [Nat.add_zero] at this
     omega
 
-theorem szp_decAlt (as : Alts) : as.All SzP → ∀ (f N i : Nat) (s : St) (res : DecM (Val × St))
-    (v : Val) (r : St), decAlt as f i s = some res → res = .ok (v, r) → s.bs.length ≤ N →
+theorem szp_decAlt (as : Alts) : as.All SzP → ∀ (f i : Nat) (s : St) (res : DecM (Val × St))
+    (v : Val) (r : St), decAlt as f i s = some res → res = .ok (v, r) →
     r.bs.length ≤ s.bs.length ∧
-      v.nodes ≤ (1 + KPa as) * (N + 1) ^ rewindsA as * (s.bs.length - r.bs.length + 1) := by
+      v.nodes ≤ (1 + KPa as) * (s.bs.length - r.bs.length + 1) := by
   induction as using Alts.ind with
-  | nil => intro _ f N i s res v r h; simp only [decAlt] at h; cases h
+  | nil => intro _ f i s res v r h; simp only [decAlt] at h; cases h
   | cons n t rest ih =>
-    intro hall f N i s res v r h hres hN
+    intro hall f i s res v r h hres
     obtain ⟨ht, hrest⟩ := hall
     cases i with
     | zero =>
       simp only [decAlt] at h
       cases h
       obtain ⟨⟨w, r1⟩, h1, h⟩ := bind_ok hres
-      obtain ⟨hl1, hs1⟩ := ht f N _ _ _ h1 hN
+      obtain ⟨hl1, hs1⟩ := ht f _ _ _ h1
       cases h
       refine ⟨hl1, ?_⟩
-      simp only [Val.nodes, KPa, rewindsA]
-      have := mem_arithP (Q := 0) (b := 0) (K2 := KPa rest) (P2 := 1) (c2 := 0)
-        (P := (N + 1) ^ max (rewinds t) (rewindsA rest)) hs1 (by omega)
-        (pw_mono N (Nat.le_max_left _ _)) (pw_pos N _) (pw_pos N _)
-        (c := s.bs.length - r1.bs.length) (by omega) (by omega)
-      simp only [Nat.add_zero, Nat.zero_add, Nat.add_assoc] at this ⊢
-      exact this
+      simp only [Val.nodes, KPa]
+      have := Cost.bd_add (Cost.bd_const 1 0) hs1
+      refine Nat.le_trans this ?_
+      refine Nat.mul_le_mul (by omega) (by omega)
     | succ i =>
       simp only [decAlt] at h
-      obtain ⟨hl, hs⟩ := ih hrest f N i s res v r h hres hN
-      refine ⟨hl, ?_⟩
-      simp only [KPa, rewindsA]
-      exact bdP_mono hs (by omega) (Nat.le_max_right _ _) (Nat.le_refl _)
-
-/-- the rewinding branch: the value was paid for by bits that are read again later; all that is left
-is "at most all the remaining bits", one more factor `N + 1` -/
-theorem rewind_arith {x K N d c' c : Nat} (h : x ≤ K * (N + 1) ^ d * (c' + 1)) (hc : c' ≤ N) :
-    x ≤ K * (N + 1) ^ (d + 1) * (c + 1) := by
-  refine Nat.le_trans h ?_
-  rw [Nat.pow_succ, ← Nat.mul_assoc]
-  refine Nat.le_trans (Nat.mul_le_mul_left _ (show c' + 1 ≤ N + 1 by omega)) ?_
-  exact Nat.le_mul_of_pos_right _ (by omega)
+      obtain ⟨hl, hs⟩ := ih hrest f i s res v r h hres
+      refine ⟨hl, Cost.bd_mono hs ?_ (Nat.le_refl _)⟩
+      simp only [KPa]; omega
 
 theorem szp_choice (root : Alts) (ext : Bool) (adds : Alts)
     (ihr : root.All SzP) (iha : adds.All SzP) : SzP (.choice root ext adds) := by
-  intro f N s v r h hN
+  intro f s v r h
   rw [dec] at h
   obtain ⟨⟨e, r0⟩, h0, h⟩ := bind_ok h
   try dsimp only at h
   have hl0 := optBit_ok h0
   revert h
   split
-  · rename_i he
-    subst he
-    have hext := optBit_true h0
-    subst hext
-    intro h
+  · intro h
     obtain ⟨⟨idx, r1⟩, h1, h⟩ := bind_ok h
     try dsimp only at h
     have hl1 := decNsnnwn_ok h1
@@ -285,39 +230,26 @@ theorem szp_choice (root : Alts) (ext : Bool) (adds : Alts)
       cases h
       refine ⟨by omega, ?_⟩
       simp only [Val.nodes, KP, Nat.add_assoc]
-      have := absorb (k := 2) (A := KPa root + KPa adds)
-        (pw_pos N (rewinds (.choice root true adds)))
-      have h2 : 2 ≤ 2 + (KPa root + KPa adds) * (N + 1) ^ rewinds (.choice root true adds) := by omega
-      refine Nat.le_trans (Nat.le_trans h2 this) (Nat.le_mul_of_pos_right _ (by omega))
+      exact Cost.KU_pos_choice
     | some res =>
       rw [hd] at h
       dsimp only at h
       obtain ⟨⟨w, r3⟩, h3, h⟩ := bind_ok h
       try dsimp only at h
-      obtain ⟨hl3, hs3⟩ := szp_decAlt adds iha f N idx r2 res w r3 hd h3 (by omega)
-      have hrw : rewindsA adds + 1 ≤ rewinds (.choice root true adds) := by
-        cases adds with
-        | nil => simp only [decAlt] at hd; cases hd
-        | cons n t rest =>
-          simp only [rewinds, if_true]
-          exact Nat.le_max_right _ _
-      have hfin : w.nodes ≤ KP (.choice root true adds) * (N + 1) ^ rewinds (.choice root true adds)
-          * (s.bs.length - r.bs.length + 1) := by
-        have a := rewind_arith (c := s.bs.length - r.bs.length) hs3
-          (show r2.bs.length - r3.bs.length ≤ N by omega)
-        refine bdP_mono a ?_ hrw (Nat.le_refl _)
-        simp only [KP]; omega
+      obtain ⟨hl3, hs3⟩ := szp_decAlt adds iha f idx r2 res w r3 hd h3
       revert h
       split
-      · -- the rewind (were this branch an error, as in the repaired code, `cases h` would close it)
-        intro h
-        cases h <;> (refine ⟨?_, hfin⟩; simp only [List.length_drop]; omega)
+      · -- the alternative read beyond its open type: a `DecodeError` (before repair ace6523 of /repo the
+        -- position moved back here, and the value `w` was paid for by bits that were read again)
+        intro h; cases h
       · intro h
         obtain ⟨⟨body, r4⟩, h4, h⟩ := bind_ok h
         try dsimp only at h
         have hl4 := (readBits_ok h4).1
         cases h
-        exact ⟨by omega, hfin⟩
+        refine ⟨by omega, ?_⟩
+        simp only [KP]
+        exact Cost.bd_mono hs3 (by omega) (by omega)
   · intro h
     obtain ⟨⟨idx, r1⟩, h1, h⟩ := bind_ok h
     try dsimp only at h
@@ -330,15 +262,13 @@ theorem szp_choice (root : Alts) (ext : Bool) (adds : Alts)
     | some res =>
       rw [hd] at h
       dsimp only at h
-      obtain ⟨hl3, hs3⟩ := szp_decAlt root ihr f N idx.toNat r1 res v r hd h (by omega)
+      obtain ⟨hl3, hs3⟩ := szp_decAlt root ihr f idx.toNat r1 res v r hd h
       refine ⟨by omega, ?_⟩
-      refine bdP_mono hs3 ?_ ?_ (by omega)
-      · simp only [KP]; omega
-      · simp only [rewinds]; exact Nat.le_max_left _ _
+      simp only [KP]
+      exact Cost.bd_mono hs3 (by omega) (by omega)
 
 /-- **aligned PER allocation bound (bit level)**, every type: a successful run of the decoder of `t`
-never lengthens the input, and the value it returns has at most `KP t * (N + 1) ^ rewinds t` nodes per
-bit consumed (+1), `N` being any bound on the number of remaining bits -/
+never lengthens the input, and the value it returns has at most `KP t` nodes per bit consumed (+1) -/
 theorem szp_all (t : Ty) : SzP t :=
   Ty.rec (motive_1 := SzP) (motive_2 := Members.All SzP) (motive_3 := Alts.All SzP)
     szp_boolean szp_null szp_integer szp_enumerated szp_octetString szp_bitString
@@ -352,23 +282,14 @@ theorem szp_all (t : Ty) : SzP t :=
     trivial (fun _ _ _ _ iht ihr => ⟨iht, ihr⟩)
     trivial (fun _ _ _ iht ihr => ⟨iht, ihr⟩) t
 
-/-- the inductive statement, with `N` = the number of bits in front of the decoder -/
 theorem per_dec_cost (t : Ty) (f : Nat) (s : St) (v : Val) (r : St) (h : dec t f s = .ok (v, r)) :
-    r.bs.length ≤ s.bs.length ∧
-      v.nodes ≤ KP t * (s.bs.length + 1) ^ rewinds t * (s.bs.length - r.bs.length + 1) :=
-  szp_all t f s.bs.length s v r h (Nat.le_refl _)
+    r.bs.length ≤ s.bs.length ∧ v.nodes ≤ KP t * (s.bs.length - r.bs.length + 1) :=
+  szp_all t f s v r h
 
-/-- without a rewinding CHOICE: linear in the bits consumed, as for UPER -/
-theorem per_dec_cost_linear (t : Ty) (hrw : rewinds t = 0) (f : Nat) (s : St) (v : Val) (r : St)
-    (h : dec t f s = .ok (v, r)) :
-    r.bs.length ≤ s.bs.length ∧ v.nodes ≤ KP t * (s.bs.length - r.bs.length + 1) := by
-  have := per_dec_cost t f s v r h
-  rwa [hrw, Nat.pow_zero, Nat.mul_one] at this
-
-/-- **aligned PER allocation bound**, every type, every octet string: polynomial of degree
-`rewinds t + 1` in the length of the input -/
-theorem per_decode_alloc_poly (t : Ty) (bs : Bytes) (v : Val) (h : Per.decode t bs = .ok v) :
-    v.nodes ≤ KP t * (8 * bs.length + 1) ^ (rewinds t + 1) := by
+/-- **aligned PER allocation bound**, every type, every octet string: a decoded value has at most
+`KP t * (8 * length + 1)` nodes -/
+theorem per_decode_alloc (t : Ty) (bs : Bytes) (v : Val) (h : Per.decode t bs = .ok v) :
+    v.nodes ≤ KP t * (8 * bs.length + 1) := by
   unfold Per.decode at h
   cases hd : dec t (8 * bs.length + 2) ⟨0, bytesToBits bs⟩ with
   | error e => rw [hd] at h; cases h
@@ -378,20 +299,11 @@ theorem per_decode_alloc_poly (t : Ty) (bs : Bytes) (v : Val) (h : Per.decode t 
     cases h
     obtain ⟨hl, hs⟩ := per_dec_cost t _ _ _ _ hd
     simp only [bytesToBits_length] at hs hl
-    refine Nat.le_trans hs ?_
-    rw [Nat.pow_succ, ← Nat.mul_assoc]
-    exact Nat.mul_le_mul_left _ (by omega)
+    exact Cost.bd_mono hs (Nat.le_refl _) (by omega)
 
-/-- **aligned PER allocation bound**, types without a rewinding CHOICE: whatever the octets, a
-decoded value has at most `KP t * (8 * length + 1)` nodes -/
-theorem per_decode_alloc (t : Ty) (hrw : rewinds t = 0) (bs : Bytes) (v : Val)
-    (h : Per.decode t bs = .ok v) : v.nodes ≤ KP t * (8 * bs.length + 1) := by
-  have := per_decode_alloc_poly t bs v h
-  rwa [hrw, Nat.zero_add, Nat.pow_one] at this
-
-theorem per_decode_alloc' (t : Ty) (hrw : rewinds t = 0) (bs : Bytes) (v : Val)
-    (h : Per.decode t bs = .ok v) : v.nodes ≤ 8 * KP t * (bs.length + 1) := by
-  have := per_decode_alloc t hrw bs v h
+theorem per_decode_alloc' (t : Ty) (bs : Bytes) (v : Val) (h : Per.decode t bs = .ok v) :
+    v.nodes ≤ 8 * KP t * (bs.length + 1) := by
+  have := per_decode_alloc t bs v h
   refine Nat.le_trans this ?_
   rw [Nat.mul_comm 8 (KP t), Nat.mul_assoc]
   exact Nat.mul_le_mul_left _ (by omega)
